@@ -1,4 +1,226 @@
-(** C02 — facts about the specification matcher (Query/Spec.v). *)
+(** C02 — facts about the specification matcher (Query/Spec.v): a substitution is produced by the
+    nested loops iff there is one witness row per atom that satisfies the atom under it. *)
 From Coq Require Import List Arith Bool PeanoNat Lia.
 Import ListNotations.
 Require Import Verif.Query.Spec.
+
+Definition ext (e e' : env) : Prop := forall x v, lookup e x = Some v -> lookup e' x = Some v.
+
+Lemma ext_refl e : ext e e.
+Proof. intros x v H; exact H. Qed.
+
+Lemma ext_trans a b c : ext a b -> ext b c -> ext a c.
+Proof. intros H1 H2 x v H. apply H2, H1, H. Qed.
+
+Lemma lookup_cons_eq e x v : lookup ((x, v) :: e) x = Some v.
+Proof. simpl. rewrite Nat.eqb_refl. reflexivity. Qed.
+
+Lemma lookup_cons_neq e x y v : x <> y -> lookup ((y, v) :: e) x = lookup e x.
+Proof. intros H. simpl. destruct (Nat.eqb_spec x y); [contradiction | reflexivity]. Qed.
+
+Lemma ext_cons_fresh e x v : lookup e x = None -> ext e ((x, v) :: e).
+Proof.
+  intros Hn y w Hy. destruct (Nat.eq_dec y x) as [->|Hne].
+  - rewrite Hn in Hy. discriminate.
+  - rewrite lookup_cons_neq; assumption.
+Qed.
+
+(** what an argument demands of a row under a substitution *)
+Definition arg_ok (t : env) (r : row) (c : nat) (g : arg) : Prop :=
+  match g with
+  | AVar x => lookup t x = Some (col r c)
+  | AConst k => col r c = k
+  end.
+
+Definition row_ok (a : atom) (t : env) (r : row) : Prop :=
+  all_cs (a_cs a) r = true /\ forall c g, In (c, g) (iargs a) -> arg_ok t r c g.
+
+Definition witness (q : query) (d : db) (t : env) (ws : list row) : Prop :=
+  Forall2 (fun a w => In w (get_tab d (a_tab a)) /\ row_ok a t w) (q_atoms q) ws.
+
+Lemma arg_ok_ext t t' r c g : ext t t' -> arg_ok t r c g -> arg_ok t' r c g.
+Proof. intros He. destruct g; simpl; auto. Qed.
+
+Lemma match_pairs_sound : forall ps r e e',
+  match_pairs ps r e = Some e' ->
+  ext e e' /\ forall c g, In (c, g) ps -> arg_ok e' r c g.
+Proof.
+  induction ps as [|[c g] tl IH]; intros r e e' H; simpl in H.
+  - inversion H; subst. split; [apply ext_refl | intros ? ? []].
+  - destruct g as [x|k].
+    + destruct (lookup e x) as [v|] eqn:Hl.
+      * destruct (Nat.eqb_spec v (col r c)) as [->|]; [|discriminate].
+        destruct (IH _ _ _ H) as [He Ha]. split; [exact He|].
+        intros c' g' [Heq|Hin]; [|apply Ha; exact Hin].
+        inversion Heq; subst. simpl. apply He. exact Hl.
+      * destruct (IH _ _ _ H) as [He Ha]. split.
+        -- eapply ext_trans; [apply ext_cons_fresh; exact Hl | exact He].
+        -- intros c' g' [Heq|Hin]; [|apply Ha; exact Hin].
+           inversion Heq; subst. simpl. apply He. apply lookup_cons_eq.
+    + destruct (Nat.eqb_spec (col r c) k) as [Hk|]; [|discriminate].
+      destruct (IH _ _ _ H) as [He Ha]. split; [exact He|].
+      intros c' g' [Heq|Hin]; [|apply Ha; exact Hin].
+      inversion Heq; subst. simpl. reflexivity.
+Qed.
+
+Lemma match_atoms_sound : forall d ats es t,
+  In t (match_atoms d ats es) ->
+  exists e ws, In e es /\ ext e t /\
+    Forall2 (fun a w => In w (get_tab d (a_tab a)) /\ row_ok a t w) ats ws.
+Proof.
+  induction ats as [|a tl IH]; intros es t H; simpl in H.
+  - exists t, []. repeat split; [exact H | apply ext_refl | constructor].
+  - destruct (IH _ _ H) as (e1 & ws & Hin1 & Hext1 & HF).
+    apply in_flat_map in Hin1. destruct Hin1 as (e & He & Hin1).
+    unfold match_atom in Hin1. apply in_flat_map in Hin1. destruct Hin1 as (r & Hr & Hin1).
+    unfold match_row in Hin1.
+    destruct (all_cs (a_cs a) r) eqn:Hcs; [|destruct Hin1].
+    destruct (match_pairs (iargs a) r e) as [e'|] eqn:Hm; [|destruct Hin1].
+    destruct Hin1 as [<-|[]].
+    destruct (match_pairs_sound _ _ _ _ Hm) as [Hee Hargs].
+    exists e, (r :: ws). repeat split.
+    + exact He.
+    + eapply ext_trans; eassumption.
+    + constructor; [|exact HF]. split; [exact Hr|]. split; [exact Hcs|].
+      intros c g Hcg. eapply arg_ok_ext; [exact Hext1 | apply Hargs; exact Hcg].
+Qed.
+
+(** every substitution the nested loops produce has a witness row per atom *)
+Lemma matches_sound q d t : In t (matches q d) -> exists ws, witness q d t ws.
+Proof.
+  intros H. destruct (match_atoms_sound _ _ _ _ H) as (e & ws & _ & _ & HF).
+  exists ws. exact HF.
+Qed.
+
+(* ---------------------------------------------------------------- completeness *)
+
+(** the rows agree with each other on every variable *)
+Definition pair_consistent (srcs : list (atom * row)) : Prop :=
+  forall a w b w' c c' x, In (a, w) srcs -> In (b, w') srcs ->
+    In (c, AVar x) (iargs a) -> In (c', AVar x) (iargs b) -> col w c = col w' c'.
+
+Definition local_ok (d : db) (a : atom) (w : row) : Prop :=
+  In w (get_tab d (a_tab a)) /\ all_cs (a_cs a) w = true /\
+  forall c k, In (c, AConst k) (iargs a) -> col w c = k.
+
+Section Complete.
+  Variable srcs : list (atom * row).
+  Hypothesis Hcons : pair_consistent srcs.
+
+  (** every binding comes from some row *)
+  Definition from_rows (e : env) : Prop :=
+    forall x v, lookup e x = Some v ->
+      exists a w c, In (a, w) srcs /\ In (c, AVar x) (iargs a) /\ v = col w c.
+
+  Lemma match_pairs_complete : forall ps a w e,
+    In (a, w) srcs -> incl ps (iargs a) -> from_rows e ->
+    (forall c k, In (c, AConst k) ps -> col w c = k) ->
+    exists e', match_pairs ps w e = Some e' /\ from_rows e'.
+  Proof.
+    induction ps as [|[c g] tl IH]; intros a w e Hin Hincl Hfr Hk; simpl.
+    - exists e. split; [reflexivity | exact Hfr].
+    - assert (Hincl' : incl tl (iargs a)) by (intros z Hz; apply Hincl; right; exact Hz).
+      assert (Hk' : forall c k, In (c, AConst k) tl -> col w c = k) by (intros; apply Hk; right; assumption).
+      destruct g as [x|k].
+      + destruct (lookup e x) as [v|] eqn:Hl.
+        * destruct (Hfr _ _ Hl) as (a0 & w0 & c0 & Hin0 & Hc0 & ->).
+          assert (Heq : col w0 c0 = col w c).
+          { eapply Hcons; [exact Hin0 | exact Hin | exact Hc0 | apply Hincl; left; reflexivity]. }
+          rewrite Heq, Nat.eqb_refl. eapply IH; eassumption.
+        * eapply IH; try eassumption.
+          intros y v Hy. destruct (Nat.eq_dec y x) as [->|Hne].
+          -- rewrite lookup_cons_eq in Hy. inversion Hy; subst.
+             exists a, w, c. repeat split; [exact Hin | apply Hincl; left; reflexivity].
+          -- rewrite lookup_cons_neq in Hy by exact Hne. apply Hfr. exact Hy.
+      + rewrite (Hk c k (or_introl eq_refl)), Nat.eqb_refl. eapply IH; eassumption.
+  Qed.
+
+  Lemma match_atoms_complete : forall d ats ws es e,
+    Forall2 (local_ok d) ats ws ->
+    (forall a w, In (a, w) (combine ats ws) -> In (a, w) srcs) ->
+    In e es -> from_rows e ->
+    exists t, In t (match_atoms d ats es) /\ ext e t /\
+      Forall2 (fun a w => In w (get_tab d (a_tab a)) /\ row_ok a t w) ats ws.
+  Proof.
+    induction ats as [|a tl IH]; intros ws es e HF Hsrc He Hfr.
+    - inversion HF; subst. exists e. repeat split; [exact He | apply ext_refl | constructor].
+    - inversion HF as [|a' w tl' ws' Hloc HF']; subst.
+      destruct Hloc as (Hw & Hcs & Hk).
+      assert (Hinsrc : In (a, w) srcs) by (apply Hsrc; left; reflexivity).
+      destruct (match_pairs_complete (iargs a) a w e Hinsrc (incl_refl _) Hfr Hk) as (e1 & Hm & Hfr1).
+      assert (Hin1 : In e1 (flat_map (match_atom d a) es)).
+      { apply in_flat_map. exists e. split; [exact He|].
+        unfold match_atom. apply in_flat_map. exists w. split; [exact Hw|].
+        unfold match_row. rewrite Hcs, Hm. left; reflexivity. }
+      destruct (IH ws' _ e1 HF' (fun a0 w0 H0 => Hsrc a0 w0 (or_intror H0)) Hin1 Hfr1) as (t & Ht & Hext & HF2).
+      destruct (match_pairs_sound _ _ _ _ Hm) as [Hee Hargs].
+      exists t. repeat split.
+      + exact Ht.
+      + eapply ext_trans; eassumption.
+      + constructor; [|exact HF2]. split; [exact Hw|]. split; [exact Hcs|].
+        intros c g Hcg. eapply arg_ok_ext; [exact Hext | apply Hargs; exact Hcg].
+  Qed.
+End Complete.
+
+(** rows that satisfy each atom's constants and constraints and agree on every variable are the
+    witness of a substitution the nested loops produce *)
+Lemma matches_complete q d ws :
+  Forall2 (local_ok d) (q_atoms q) ws ->
+  pair_consistent (combine (q_atoms q) ws) ->
+  exists t, In t (matches q d) /\ witness q d t ws.
+Proof.
+  intros HF Hc.
+  destruct (match_atoms_complete (combine (q_atoms q) ws) Hc d (q_atoms q) ws [[]] [] HF
+              (fun a w H => H) (or_introl eq_refl)) as (t & Ht & _ & HF2).
+  - intros x v H. discriminate.
+  - exists t. split; [exact Ht | exact HF2].
+Qed.
+
+(* ---------------------------------------------------------------- indexing helpers *)
+
+Lemma in_combine_seq {A} : forall (l : list A) s i a,
+  In (i, a) (combine (seq s (length l)) l) <-> s <= i /\ nth_error l (i - s) = Some a.
+Proof.
+  induction l as [|b tl IH]; intros s i a; simpl.
+  - split; [intros [] | intros [_ H]; destruct (i - s); discriminate].
+  - split.
+    + intros [H|H].
+      * inversion H; subst. rewrite Nat.sub_diag. split; [lia | reflexivity].
+      * apply IH in H. destruct H as [Hle Hn]. split; [lia|].
+        replace (i - s) with (S (i - S s)) by lia. exact Hn.
+    + intros [Hle Hn]. destruct (i - s) as [|k] eqn:Hk.
+      * left. inversion Hn; subst. f_equal. lia.
+      * right. apply IH. split; [lia|]. replace (i - S s) with k by lia. exact Hn.
+Qed.
+
+Lemma in_iargs a c g : In (c, g) (iargs a) <-> nth_error (a_args a) c = Some g.
+Proof.
+  unfold iargs. rewrite in_combine_seq. rewrite Nat.sub_0_r. split; [intros [_ H]; exact H | intros H; split; [lia | exact H]].
+Qed.
+
+(* ---------------------------------------------------------------- what a match guarantees *)
+
+(** repeated variable: the witness row has equal values in all columns holding the variable *)
+Lemma row_ok_repeated a t w c c' x :
+  row_ok a t w -> In (c, AVar x) (iargs a) -> In (c', AVar x) (iargs a) -> col w c = col w c'.
+Proof.
+  intros [_ H] H1 H2. pose proof (H _ _ H1) as E1. pose proof (H _ _ H2) as E2. simpl in E1, E2.
+  rewrite E1 in E2. inversion E2. reflexivity.
+Qed.
+
+Lemma row_ok_const a t w c k : row_ok a t w -> In (c, AConst k) (iargs a) -> col w c = k.
+Proof. intros [_ H] H1. exact (H _ _ H1). Qed.
+
+(** every per-atom constraint holds on the witness row; in particular the constant on the
+    subsume column, through which subsumed rows are excluded, and the timestamp bounds *)
+Lemma row_ok_constraint a t w k : row_ok a t w -> In k (a_cs a) -> cs_ok w k = true.
+Proof. intros [H _] Hk. unfold all_cs in H. rewrite forallb_forall in H. apply H. exact Hk. Qed.
+
+Lemma witness_nth q d t ws : witness q d t ws ->
+  forall i a, nth_error (q_atoms q) i = Some a ->
+    In (nth i ws []) (get_tab d (a_tab a)) /\ row_ok a t (nth i ws []).
+Proof.
+  unfold witness. generalize (q_atoms q). intros l HF. induction HF as [|a w l ws' Haw HF IH]; intros [|i] b Hi; simpl in *; try discriminate.
+  - inversion Hi; subst. exact Haw.
+  - apply IH. exact Hi.
+Qed.
